@@ -6,6 +6,7 @@ package main
 
 import (
 	"fmt"
+	"math"
 	"strings"
 
 	simdjson "github.com/minio/simdjson-go"
@@ -267,6 +268,29 @@ func (c *Ctx) c12ArrayBulk(doc []byte, pj *simdjson.ParsedJson, p position) {
 	if gotT != wantT {
 		c.Violate("bulk", "Array.FirstType differs from the first element's type", "c12-firsttype", info("FirstType", gotT, wantT))
 	}
+	// Array.MarshalJSON = MarshalJSON of the element iterator standing on this array
+	gotJ := safeStr(func() string {
+		b, err := arrAt().MarshalJSON()
+		if err != nil {
+			return "ERR"
+		}
+		return string(b)
+	})
+	wantJ := safeStr(func() string {
+		it := iterAt(pj, p.K-1)
+		var el simdjson.Iter
+		if _, err := it.AdvanceIter(&el); err != nil {
+			return "ERR"
+		}
+		b, err := el.MarshalJSON()
+		if err != nil {
+			return "ERR"
+		}
+		return string(b)
+	})
+	if gotJ != wantJ {
+		c.Violate("bulk", "Array.MarshalJSON differs from MarshalJSON of the iterator on the same array", "c12-array-marshal", info("Array.MarshalJSON", gotJ, wantJ))
+	}
 	// Array.Interface = Interface() of each element
 	gotI := safeStr(func() string {
 		v, err := arrAt().Interface()
@@ -297,5 +321,121 @@ func (c *Ctx) c12ArrayBulk(doc []byte, pj *simdjson.ParsedJson, p position) {
 	})
 	if gotI != wantI {
 		c.Violate("bulk", "Array.Interface differs from Interface() of each element", "c12-array-interface", info("Array.Interface", gotI, wantI))
+	}
+}
+
+// numeric bulk accessors vs plain traversal with the typed accessor
+func (c *Ctx) c12NumBulk(doc []byte, pj *simdjson.ParsedJson, p position) {
+	arrAt := func() *simdjson.Array {
+		it := iterAt(pj, p.K)
+		a, _ := it.Array(nil)
+		return a
+	}
+	trav := func(kind string) string {
+		it := arrAt().Iter()
+		var parts []string
+		for {
+			t := it.Advance()
+			if t == simdjson.TypeNone {
+				break
+			}
+			switch kind {
+			case "float":
+				v, err := it.Float()
+				if err != nil {
+					return "ERR"
+				}
+				parts = append(parts, fmt.Sprint(math.Float64bits(v)))
+			case "int":
+				v, err := it.Int()
+				if err != nil {
+					return "ERR"
+				}
+				parts = append(parts, fmt.Sprint(v))
+			case "uint":
+				v, err := it.Uint()
+				if err != nil {
+					return "ERR"
+				}
+				parts = append(parts, fmt.Sprint(v))
+			}
+		}
+		return "ok " + strings.Join(parts, ",")
+	}
+	bulk := func(kind string) string {
+		switch kind {
+		case "float":
+			v, err := arrAt().AsFloat()
+			if err != nil {
+				return "ERR"
+			}
+			parts := make([]string, len(v))
+			for i, x := range v {
+				parts[i] = fmt.Sprint(math.Float64bits(x))
+			}
+			return "ok " + strings.Join(parts, ",")
+		case "int":
+			v, err := arrAt().AsInteger()
+			if err != nil {
+				return "ERR"
+			}
+			parts := make([]string, len(v))
+			for i, x := range v {
+				parts[i] = fmt.Sprint(x)
+			}
+			return "ok " + strings.Join(parts, ",")
+		default:
+			v, err := arrAt().AsUint64()
+			if err != nil {
+				return "ERR"
+			}
+			parts := make([]string, len(v))
+			for i, x := range v {
+				parts[i] = fmt.Sprint(x)
+			}
+			return "ok " + strings.Join(parts, ",")
+		}
+	}
+	for _, kind := range []string{"float", "int", "uint"} {
+		k := kind
+		got := safeStr(func() string { return bulk(k) })
+		want := safeStr(func() string { return trav(k) })
+		c.Ev.Count("bulk-vs-traversal", []byte(kind+fmt.Sprint(p.K)+string(doc)), true)
+		if got != want {
+			c.Violate("bulk", "bulk numeric accessor differs from plain traversal with the typed accessor", "c12-bulk-traversal",
+				map[string]interface{}{"doc_hex": fmt.Sprintf("%x", doc), "doc_text": printable(doc), "query": "As" + kind + " at " + pathStr(p.Path), "bulk": trunc(got, 300), "traversal": trunc(want, 300), "tape": trunc(tapeHex(pj.Tape), 600)})
+		}
+	}
+}
+
+// bulkVsTraversal: every bulk accessor on (up to max) containers of the current
+// tape — possibly edited, with NOP gaps — against plain traversal of the same tape
+func (c *Ctx) bulkVsTraversal(pj *simdjson.ParsedJson, doc []byte, max int) {
+	pos, err := flatPositions(pj, 5000)
+	if err != nil {
+		return
+	}
+	n := 0
+	for _, p := range pos {
+		if !p.IsValue || n >= max {
+			continue
+		}
+		switch p.Tag {
+		case simdjson.TagArrayStart:
+			n++
+			c.c12ArrayBulk(doc, pj, p)
+			c.c12NumBulk(doc, pj, p)
+		case simdjson.TagObjectStart:
+			n++
+			seen := map[string]bool{}
+			dup := false
+			for _, k := range p.Keys {
+				if seen[k] {
+					dup = true
+				}
+				seen[k] = true
+			}
+			c.c12ObjectBulk(doc, pj, p, dup)
+		}
 	}
 }
